@@ -16,7 +16,7 @@ import (
 // ---- C01: extract reproduces the indexed blob byte-for-byte ----
 
 func runC01(c *fw.Case) {
-	if desyncBin() != "" && c.Chance(1, procRate(80), "c01.proc") {
+	if desyncBin() != "" && c.ChanceAdded(1, procRate(80), "c01.proc") {
 		runC01Proc(c)
 		return
 	}
